@@ -50,6 +50,7 @@ structure Cfg where
   fast : Bool := false         -- DISABLE_MCOUNT_FILTER build
   enabled0 : Bool := true      -- !UFTRACE_TRACE_OFF
   f4fixed : Bool := true       -- false: __mcount_entry before the repair of finding F4
+  s4fixed : Bool := true       -- false: exit hooks keep a call only if it ran strictly longer than the threshold (finding S4)
   trig : Nat → Trigger := fun _ => {}
   fsize : Nat → Nat := fun _ => 16
 
@@ -224,6 +225,12 @@ def entryFilterRecord (cfg : Cfg) (s : St) (tr : Trigger) : St :=
     { s with recordIdx := s.recordIdx + 1, frames := p.1, out := s.out ++ p.2,
              enableCached := if tr.traceOn || tr.traceOff then s.enabled else s.enableCached }
 
+/-- the time-filter test of the exit hooks: a call is kept when it ran at least as long as the
+    threshold (`>=`, the documented "do not show functions which run under the threshold" and
+    what the analysis commands do); before the repair of finding S4 it was `>` -/
+def durOk (cfg : Cfg) (dur thr : Nat) : Bool :=
+  if cfg.s4fixed then dur ≥ thr else dur > thr
+
 /-- mcount_exit_filter_record on the top frame (its `endT` already set) -/
 def exitFilterRecord (cfg : Cfg) (s : St) : St :=
   match s.frames with
@@ -231,7 +238,7 @@ def exitFilterRecord (cfg : Cfg) (s : St) : St :=
   | f :: rest =>
     if cfg.fast then
       let s1 := { s with recordIdx := s.recordIdx - 1 }
-      if f.endT - f.start > cfg.threshold || f.written then
+      if durOk cfg (f.endT - f.start) cfg.threshold || f.written then
         let p := recordTrace (f :: rest)
         { s1 with frames := p.1, out := s.out ++ p.2 }
       else s1
@@ -245,7 +252,7 @@ def exitFilterRecord (cfg : Cfg) (s : St) : St :=
     if f.norecord then s1 else
     let s2 := { s1 with recordIdx := s1.recordIdx - 1 }
     if !s.enabled then s2 else
-    if (f.endT - f.start > timeFilter && (!cfg.callerMode || f.caller)) || f.written || f.trace then
+    if (durOk cfg (f.endT - f.start) timeFilter && (!cfg.callerMode || f.caller)) || f.written || f.trace then
       let p := recordTrace (f :: rest)
       { s2 with frames := p.1, out := s.out ++ p.2 }
     else s2
